@@ -162,7 +162,19 @@ func buildResp(hrefs int, status string, stats [][2]string, pathBase string) *wE
 }
 
 func emitCliResp(o *Out, r *RNG, hrefs int, status string, stats [][2]string, name string) {
-	doc := randStyle(r).doc(E("DAV:", "multistatus", buildResp(hrefs, status, stats, "/c/x")))
+	emitCliRespX(o, r, hrefs, status, stats, name, false, false)
+}
+
+// withErr / withDesc: the response carries a DAV:error condition element / a DAV:responsedescription
+func emitCliRespX(o *Out, r *RNG, hrefs int, status string, stats [][2]string, name string, withErr, withDesc bool) {
+	respEl := buildResp(hrefs, status, stats, "/c/x")
+	if withErr {
+		respEl.Add(E("DAV:", "error", E(r.Pick([]string{"DAV:", nsCal, nsCard}), r.Pick([]string{"lock-token-submitted", "no-uid-conflict", "valid-address-data"}))))
+	}
+	if withDesc {
+		respEl.Add(E("DAV:", "responsedescription").T("because of reasons"))
+	}
+	doc := randStyle(r).doc(E("DAV:", "multistatus", respEl))
 	res := guard(func() string {
 		var ms internal.MultiStatus
 		if err := xml.Unmarshal([]byte(doc), &ms); err != nil || len(ms.Responses) != 1 {
@@ -175,6 +187,14 @@ func emitCliResp(o *Out, r *RNG, hrefs int, status string, stats [][2]string, na
 			var he *internal.HTTPError
 			if errors.As(err, &he) {
 				e = itoa(he.Code)
+				if withErr || withDesc {
+					var de *internal.Error
+					if errors.As(err, &de) && len(de.Raw) == 1 {
+						e += ":dav"
+					} else if he.Err != nil {
+						e += ":text"
+					}
+				}
 			} else {
 				e = "plain"
 			}
@@ -214,7 +234,11 @@ func emitCliResp(o *Out, r *RNG, hrefs int, status string, stats [][2]string, na
 		}
 		return fmt.Sprintf("err %s path %s prop %s", e, ps, ds)
 	})
-	o.Emit("cli.resp", sxResp(hrefs, status, stats)+" "+hx(name), res)
+	desc := sxResp(hrefs, status, stats)
+	if withErr || withDesc {
+		desc = strings.TrimSuffix(desc, " )") + " " + b01(withErr) + " " + b01(withDesc) + " )"
+	}
+	o.Emit("cli.resp", desc+" "+hx(name), res)
 }
 
 func emitCliSync(o *Out, r *RNG, reqPath string, descs []struct {
@@ -302,6 +326,16 @@ func famCliCore(o *Out, r *RNG, thorough bool) {
 							emitCliResp(o, r, hrefs, st, stats, "displayname")
 						}
 					}
+				}
+			}
+		}
+	}
+	// failed responses carrying a DAV:error element and / or a description
+	for _, st := range []string{"nil", "200", "403", "404", "409", "423", "507"} {
+		for _, we := range []bool{false, true} {
+			for _, wd := range []bool{false, true} {
+				for _, hrefs := range []int{1, 2} {
+					emitCliRespX(o, r, hrefs, st, [][2]string{{"200", "getetag"}, {"404", "displayname"}}, "getetag", we, wd)
 				}
 			}
 		}
